@@ -181,8 +181,15 @@ func (h *Handler) HandleOpenFile(ctx *Context, path string) (fs.FileInfo, error)
 		return nil, err
 	}
 
-	ctx.State.ROFile = f
-	ctx.State.CDSectorSize = 2352 // default sector size
+	// file becomes "opened" for connection only if everything went fine, client gets an error otherwise
+	opened := false
+	defer func() {
+		if !opened {
+			if err := f.Close(); err != nil {
+				log.WarnContext(ctx, "Close failed", logutil.ErrorAttr(err))
+			}
+		}
+	}()
 
 	fi, err := f.Stat()
 	if err != nil {
@@ -190,17 +197,25 @@ func (h *Handler) HandleOpenFile(ctx *Context, path string) (fs.FileInfo, error)
 		return nil, err
 	}
 
+	cdSectorSize := 2352 // default sector size
+
 	// if file size between 2Mb and 848Mb we should try to detect sector size
 	if fi.Size() >= 0x200000 && fi.Size() <= 0x35000000 {
 		sectorSize, err := determineSectorSize(f)
 		if err != nil {
+			// we can't continue with default sector size: image may have another one and sector reads will return wrong data
 			log.WarnContext(ctx, "Determine sector size failed", logutil.ErrorAttr(err))
+			return nil, err
 		}
-		if sectorSize > 0 && sectorSize != ctx.State.CDSectorSize {
+		if sectorSize > 0 && sectorSize != cdSectorSize {
 			log.InfoContext(ctx, "Sector size determined", slog.Int("size", sectorSize))
-			ctx.State.CDSectorSize = sectorSize
+			cdSectorSize = sectorSize
 		}
 	}
+
+	opened = true
+	ctx.State.ROFile = f
+	ctx.State.CDSectorSize = cdSectorSize
 
 	return fi, nil
 }
